@@ -10,11 +10,13 @@ from typing import Any, Dict, List, Optional, Tuple
 
 import yaml
 
+from harness.extract import config_resolve as x_res
 from harness.extract import config_sites as x_cfg
 from harness.gen import scenario as G
 from harness.lib import scen
 from harness.lib.core import VERIF, Ctx, Rng, lean_lock, run_driver
 from harness.rigs import config as R
+from harness.rigs import config_falsy as F
 
 MANIFEST = {
     "text": "Lean 4 proof about an executable model of the scenario loader (PrimaiteGame.from_config: game options, airspace capacities, "
@@ -42,7 +44,22 @@ MANIFEST = {
             "_periodic/_key_order, the office-lan theorems (C20_office_build_eq_declared and the structure theorems) which now also "
             "hold INSIDE build; C20_option_precedence: for every option that has a second source outside the entry (regenerated table "
             "of install() hooks: dns-client dns_server vs the node's dns_server) the built value is the entry's, else the outer "
-            "source's, else none - part of build = declared / spec through SoftInv.effective. Tie: Gen/Config.lean (site inventory; constants; system-software, firewall-ACL, frequency tables; "
+            "source's, else none - part of build = declared / spec through SoftInv.effective. ONE ATTRIBUTE, SEVERAL SOURCES (round 7): the "
+            "statements of PrimaiteGame.from_config that decide a service's fixing_duration, a node's start_up / shut_down / node_scan "
+            "duration, a service's restart_duration and a link's bandwidth are TRANSLATED on every run (symbolic execution of the slice "
+            "that writes the attribute, Python truthiness / int() / .get / in / or / and included -> Gen/ConfigResolve.lean) and proved, "
+            "for ALL values of both sources (0, '', False, '0', 0.0 included), every initial value and every other key, equal to "
+            "`effective` = the entry's own value if the entry DECLARES the key, else the defaults section's, else what was there "
+            "(C20_gen_resolve_*; C20_or_rewrite_is_not_effective shows the `own or default` shape fails at own = 0; "
+            "C20_effective_is_getD links `effective` to the closed forms of build / declared / spec); C20_gen_truthiness_sites pins every "
+            "truthiness test of a value in the loader functions. The rig enumerates the same grid on the real loader, evaluates the "
+            "regenerated translation against the specification on it (counter-model -> scenario file -> replay) and declares every "
+            "option of every registered software schema / node schema key / user / file / ACL rule / route / link / game option / "
+            "agent setting with each falsy value its schema accepts, without and with the competing sources. The node keys "
+            "revealed_to_red / start_up_countdown / shut_down_countdown / is_resetting are part of build = declared (NodeFlags; "
+            "node-state family on all seven node types incl. transitional states with countdowns). Variants are also compared by "
+            "canonical describe_state(); outside the Lean model, as declared-vs-built oracles only: custom observation-space component "
+            "labels, shared-reward wiring and reward calculation order. Tie: Gen/Config.lean (site inventory; constants; system-software, firewall-ACL, frequency tables; "
             "assignment table and constructor chains of every software class; every key of the defaults section with the statement "
             "that applies it; the keys the eight ACL rule loops read (both address spellings, each wildcard mask from its own key); "
             "wireless-router ports and sections; scheduler shape and freshness; no loader consumes its argument; install/uninstall "
@@ -62,7 +79,7 @@ MANIFEST = {
     "technique": "Lean 4 theorems over an executable loader model; regenerated site inventory and tables; differential inventory rig",
     "design_ref": "5/C20",
 }
-MODULES = ["PrimaiteModel.Props.C20", "PrimaiteModel.Props.C20Office", "PrimaiteModel.Props.C20Spec"]
+MODULES = ["PrimaiteModel.Props.C20", "PrimaiteModel.Props.C20Office", "PrimaiteModel.Props.C20Spec", "PrimaiteModel.Props.C20Resolve"]
 EXE = "drv_c20"
 KEEP = ()  # every mapping is permuted, at every level (F-29, which made `action_probabilities` order-sensitive, is repaired)
 # test assets that are not well-formed scenario files: one needs a plug-in node type, one has `agent_settings:` null
@@ -146,6 +163,14 @@ def check_scenario(cfg: Dict, model_out: Optional[Tuple[str, str]], twice: bool 
         fails.append({"kind": "initial-state", "item": b.split()[0], "detail": b})
     for b in R.options_oracle(game, cfg):
         fails.append({"kind": "game-options", "item": b.split()[1], "detail": b})
+    try:
+        for b in R.agents_oracle(game, cfg):
+            fails.append({"kind": "agents-declared-vs-built", "item": b.split()[1], "detail": b})
+        if ctx is not None and cfg.get("agents"):
+            ctx.count("agents-oracle:applied")
+    except Exception as e:  # an agent kind the oracle does not know how to read is counted, not reported
+        if ctx is not None:
+            ctx.count("agents-oracle:not-applicable:" + type(e).__name__)
     if twice:
         if ctx is not None:
             for mp in mutation_paths(snap, work):
@@ -175,7 +200,7 @@ def check_scenario(cfg: Dict, model_out: Optional[Tuple[str, str]], twice: bool 
     return fails, inv
 
 
-STATE_TOKENS = re.compile(r" (wired|en|st|h)=\S+|^(node \S+ \S+) \S+")
+STATE_TOKENS = re.compile(r" (wired|en|st|h|flags)=\S+|^(node \S+ \S+) \S+")
 
 
 def mask_states(inv: List[str]) -> List[str]:
@@ -226,8 +251,18 @@ def check_variants(cfg: Dict, inv: List[str], rng: Rng, digest_steps: int, n_var
             variants += G.format_variants(cfg, rng, formats)
         except Exception as e:  # the rig's own text generation failing is a rig problem, reported as such
             fails.append({"kind": "format-variant-not-producible", "exc": type(e).__name__, "msg": str(e)[:160]})
+    # describe_state() of the whole simulation, canonical (uuids / MAC addresses masked): the variant must give the same text as the
+    # file itself. Python's `random` is seeded before each of these loads: DoSBot.run() draws a port-scan trial WHILE LOADING (see
+    # the design note), so two loads of one file differ unless the generator is in the same state.
+    import random as _random
+    base_state = None
+    if len(inv) < 1500:
+        _random.seed(20)
+        g0, f0 = _load(cfg)
+        base_state = None if f0 else R.state_digest(g0)
     for name, v in variants:
         # aliases make the parsed document SHARE sub-mappings: the loader gets it as parsed (deepcopy keeps the sharing)
+        _random.seed(20)
         game, f = _load(v)
         if f:
             fails.append({"kind": "key-order-changes-loading" if name in ("permuted", "reversed") else "formatting-changes-loading",
@@ -238,6 +273,9 @@ def check_variants(cfg: Dict, inv: List[str], rng: Rng, digest_steps: int, n_var
             diff = sorted(set(inv) ^ set(inv2))
             fails.append({"kind": "key-order-changes-inventory" if name in ("permuted", "reversed") else "formatting-changes-inventory",
                           "variant": name, "item": diff[0].split()[0], "diff": diff[:6]})
+        elif base_state is not None and R.state_digest(game) != base_state:
+            fails.append({"kind": "key-order-changes-describe-state" if name in ("permuted", "reversed") else "formatting-changes-describe-state",
+                          "variant": name, "digests": [base_state, R.state_digest(game)]})
     if digest_steps > 0:
         try:
             d0 = R.trajectory_digest(cfg, 7, digest_steps)
@@ -560,6 +598,7 @@ def _vocabulary_gaps() -> List[str]:
 def run(ctx: Ctx):
     with lean_lock():
         ctx.extract("Config", x_cfg.emit)
+        ctx.extract("ConfigResolve", x_res.emit)
         ctx.prove(MODULES, exes=[EXE], leanchecker=ctx.thorough)
     ctx.cov["rule"] = ("cases = corpus witnesses + generated scenarios (families lan / routed / dmz x size 1-3 x with / without configured "
                        "system software) + software-matrix scenarios (every configurable software type with non-default options on "
@@ -640,6 +679,32 @@ def run(ctx: Ctx):
                           {"mode": "schedule", "dir": str(d), "failure": fl})
         for nm, cfg in cfgs:
             cases.append((f"scheduled:{nm}", cfg, ctx.scale(0, 8)))
+    # 5. one attribute, several sources: the full grid own value x competing default of every translated resolution site (the domain
+    #    of the C20_gen_resolve_* theorems on a small value set, on the REAL loader), the grid points where the regenerated
+    #    translation and the specification differ (counter-models; none on a correct loader), and every falsy-but-legal value of
+    #    every option the real schemas know, without and with the competing sources
+    try:
+        cms = F.counter_models()
+        cm_detail = "; ".join(f"{n}: own={F._tag(o)} default={F._tag(d)} -> loader statements give {g!r}, declared meaning {w!r}" for n, o, d, g, w in cms[:4])
+    except Exception as e:
+        cms, cm_detail = [], f"translation not available ({type(e).__name__}: {str(e)[:120]})"
+        ctx.count("counter-models:translation-not-available")
+    ctx.oblige("rig:the regenerated translation of every two-source site meets `effective` on the whole value grid", "correspondence",
+               not cms, cm_detail)
+    meta_of: Dict[str, Dict] = {}
+    for n, o, d, g, w in cms:
+        nm = f"counter-model:{n}:own={F._tag(o)}:dflt={F._tag(d)}"
+        cases.append((nm, F.place(n, o, d), 0))
+        meta_of[nm] = {"site": n, "own": F._tag(o), "dflt": F._tag(d), "translated": repr(g), "specified": repr(w)}
+        ctx.count("counter-model:" + n)
+    fam = F.two_source_grid()
+    sf = F.schema_falsy_cases() + F.node_state_cases() + F.agent_settings_cases(ctx.rng.fork("falsy-agents"))
+    if not ctx.thorough:   # quick: the two-source grid in full, the schema-driven family thinned (every option still appears over seeds)
+        frng = ctx.rng.fork("falsy")
+        sf = [c for c in sf if c[2].get("thing") != "software" and c[2].get("thing") != "agent-setting" or frng.chance(1, 2)]
+    for nm, cfg, meta in fam + sf:
+        cases.append((nm, cfg, 0))
+        meta_of[nm] = meta
     # model side, batched
     all_lines: List[str] = []
     spans: Dict[str, Tuple[int, int]] = {}
@@ -674,9 +739,18 @@ def run(ctx: Ctx):
             mo = (out[st + ln - 3], out[st + ln - 2], out[st + ln - 1])
             modelled += 1
             ctx.cov["traces_validated_against_impl"] += 1
-        small = kind in ("gen", "matrix", "corpus") or not name.startswith(("shipped:uc7", "scheduled:uc7"))
-        fails, inv = check_scenario(cfg, mo, twice=small or ctx.thorough, ctx=ctx)
-        if small or ctx.thorough:
+        family = kind in ("two-source", "falsy", "counter-model")
+        small = (kind in ("gen", "matrix", "corpus") or not name.startswith(("shipped:uc7", "scheduled:uc7"))) and not family
+        fails, inv = check_scenario(cfg, mo, twice=small or (ctx.thorough and not family), ctx=ctx)
+        if family:
+            ctx.cov["evaluations"] += 1
+            m = meta_of.get(name, {})
+            ctx.count(f"{kind}:{m.get('site') or m.get('thing')}")
+            if m.get("thing"):
+                ctx.count(f"falsy-option:{m.get('thing')}:{m.get('type', '')}:{m.get('option')}")
+            if mo is None:
+                ctx.count(f"{kind}:outside-the-model")
+        if small or (ctx.thorough and not family):
             ctx.count("second-build-from-same-mapping")
             ctx.cov["evaluations"] += 1
         summ = G.summary(cfg) if "simulation" in cfg else {}
@@ -701,7 +775,7 @@ def run(ctx: Ctx):
             for n in off_hosts:
                 for e in (n.get("services") or []) + (n.get("applications") or []):
                     ctx.count(f"software-on-{str(n['operating_state']).upper()}-node:{e['type']}")
-        if inv is not None:
+        if inv is not None and not family:
             nv = 3 if (ctx.thorough or kind in ("gen", "corpus", "matrix") or steps) else 1
             fmts = None
             if kind in ("gen", "matrix") and name not in raw_corpus:
@@ -729,6 +803,8 @@ def run(ctx: Ctx):
             if f["kind"] == "load-raises" and f.get("exc") == "RecursionError":
                 sig["cause"] = "second-nic-linked-before-first"
             rp = {"mode": "scenario", "cfg": cfg, "digest_steps": steps, "failure": f, "from": name}
+            if name in meta_of:
+                rp["family"] = meta_of[name]
             if name in raw_corpus:
                 rp["raw_keys"] = True
             if f["kind"].startswith("env-"):
